@@ -804,9 +804,15 @@ impl ErasedNode for Node {
             before computing it.  If [parent] has a single child (i.e. [node]), then
             this amounts to checking that [parent] won't be invalidated, i.e. that
             [parent]'s scope has already stabilized. */
-            Kind::BindLhsChange { .. } => child.height() > parent.created_in.height(),
-            Kind::MapRef(_) | Kind::MapWithOld(_) | Kind::Map(_) => {
-                child.height() > parent.created_in.height()
+            /* "[parent]'s scope has already stabilized" is only implied by the height
+            comparison when [child] was taken from the recompute heap in height order. When
+            [child] was itself recomputed directly (a chain of single-child parents), nodes
+            lower than [child] -- in particular the bind lhs-change node that defines
+            [parent]'s scope -- may still be waiting in the heap. So we also require that
+            nothing at or below the scope's height is pending. */
+            Kind::BindLhsChange { .. } | Kind::MapRef(_) | Kind::MapWithOld(_) | Kind::Map(_) => {
+                let scope_height = parent.created_in.height();
+                child.height() > scope_height && state.recompute_heap.min_height() > scope_height
             }
             // | Freeze _ -> node.height > Scope.height parent.created_in
             // | If_test_change _ -> node.height > Scope.height parent.created_in
@@ -819,7 +825,10 @@ impl ErasedNode for Node {
             {[
             node.height > Scope.height parent.created_in
             ]} */
-            Kind::BindMain { lhs_change, .. } => child.height() > lhs_change.height(),
+            Kind::BindMain { lhs_change, .. } => {
+                child.height() > lhs_change.height()
+                    && state.recompute_heap.min_height() > lhs_change.height()
+            }
             // | Kind::If_then_else i -> node.height > i.test_change.height
             // | Join_main j -> node.height > j.lhs_change.height
         };
